@@ -106,9 +106,37 @@ func c06LoopCopyOK() bool {
 	return c06CopyOK
 }
 
+var c06L, _ = new(big.Int).SetString("3fffffffffffffffffffffffffffffffffffffffffffffffffffffff7cca23e9c44edb49aed63690216cc2728dc58f552378c292ab5844f3", 16) // prime order of the base point
+
+// c06BasePreimages: the scalars j*l +- 1 that the clamping leaves unchanged; their public key is
+// the base point, a result small enough to have a second representative below 2^(8*Size).
+func c06BasePreimages() []Key {
+	var out []Key
+	for j := int64(1); j <= 16; j++ {
+		for _, sgn := range []int64{1, -1} {
+			a := new(big.Int).Mul(c06L, big.NewInt(j))
+			a.Add(a, big.NewInt(sgn))
+			if a.BitLen() > 8*Size {
+				continue
+			}
+			var k, ck Key
+			copy(k[:], vlib.LE(a, Size))
+			if *ck.clamp(&k) == k {
+				out = append(out, k)
+			}
+		}
+	}
+	return out
+}
+
 func c06Scalar(t *rapid.T, label string) Key {
 	var k Key
-	switch rapid.IntRange(0, 5).Draw(t, label+".kind") {
+	switch rapid.IntRange(0, 6).Draw(t, label+".kind") {
+	case 6:
+		if pre := c06BasePreimages(); len(pre) > 0 {
+			return pre[rapid.IntRange(0, len(pre)-1).Draw(t, label+".pre")]
+		}
+		vlib.FillRandom(t, k[:], label)
 	case 0:
 	case 1:
 		for i := range k {
@@ -205,6 +233,74 @@ func TestVerifC06Backends(t *testing.T) {
 		}
 		if cls != "uniform" {
 			vlib.NonTrivial(sub, "u="+cls, k[:], u[:])
+		}
+	})
+}
+
+// TestVerifC06ToAffine: the last step of both ladders, x/z written as the canonical
+// little-endian string, fed (x, z) with x = v*z for results v that have a second
+// representative below 2^(8*Size) (v < 2^(8*Size) - p), for v = 0, and for general v;
+// x is given in either representative.
+func TestVerifC06ToAffine(t *testing.T) {
+	defer vlib.Done()
+	const sub = "whitebox/x448.toAffine"
+	p := c06Curve.P
+	width := new(big.Int).Lsh(big.NewInt(1), uint(8*Size))
+	bound := new(big.Int).Sub(new(big.Int).Lsh(big.NewInt(1), 448), p) // 19 resp. 2^224+1
+	vlib.Check(t, vlib.N(3000, 40000), func(t *rapid.T) {
+		var v *big.Int
+		cls := "tiny"
+		switch rapid.IntRange(0, 4).Draw(t, "vk") {
+		case 0:
+			v = big.NewInt(int64(rapid.IntRange(0, 18).Draw(t, "v")))
+		case 1, 2:
+			b := make([]byte, (bound.BitLen()+7)/8)
+			vlib.FillRandom(t, b, "vb")
+			v = vlib.FromLE(b)
+			v.Mod(v, bound)
+			if rapid.Bool().Draw(t, "shift") {
+				v.Rsh(v, uint(rapid.IntRange(0, bound.BitLen()).Draw(t, "sh")))
+			}
+		case 3:
+			v = new(big.Int).Sub(bound, big.NewInt(int64(rapid.IntRange(1, 3).Draw(t, "d"))))
+		default:
+			_, v, _ = c06Elt(t, "v")
+			v.Mod(v, p)
+			cls = "general"
+		}
+		_, z, _ := c06Elt(t, "z")
+		if new(big.Int).Mod(z, p).Sign() == 0 {
+			z = big.NewInt(1)
+		}
+		x := new(big.Int).Mul(v, z)
+		x.Mod(x, p)
+		if xp := new(big.Int).Add(x, p); xp.Cmp(width) < 0 && rapid.Bool().Draw(t, "xrep") {
+			x = xp
+		}
+		var ex, ez fp.Elt
+		copy(ex[:], vlib.LE(x, Size))
+		copy(ez[:], vlib.LE(z, Size))
+		vlib.Eval(sub)
+		want := vlib.LE(v, Size)
+		for _, bmi := range []bool{false, true} {
+			if bmi && !(cpu.X86.HasBMI2 && cpu.X86.HasADX) {
+				continue
+			}
+			var out [fp.Size]byte
+			for i := range out {
+				out[i] = 0xa5
+			}
+			xx, zz := ex, ez
+			c06With(bmi, func() { toAffine(&out, &xx, &zz) })
+			if !bytes.Equal(out[:], want) {
+				if vlib.Report(t, "C06/whitebox/x448/toAffine-not-canonical", fmt.Sprintf("x=%x z=%x (x/z = %x) out=%x want=%x", x, z, v, out, want)) {
+					return
+				}
+			}
+		}
+		vlib.Class(sub, "v="+cls)
+		if cls == "tiny" {
+			vlib.NonTrivial(sub, "", x.Bytes(), z.Bytes())
 		}
 	})
 }
